@@ -134,6 +134,12 @@ class ValueGen:
         if r.chance(0.5):
             c = r.choice([0, 1, -1, 2, 63, 64, 127, 128, 255, 256, 16383, 16384, 32767, 65535, (1 << 21) - 1, 1 << 21,
                           (1 << 31) - 1, 1 << 31, (1 << 32) - 1, (1 << 35), (1 << 63) - 1, lo, hi, lo + 1, hi - 1, -64, -65, -128, -129])
+            if r.chance(0.4):
+                # every power of two and its neighbours, either sign: where the number of varint bytes changes, where
+                # a word boundary is crossed, single high bits with nothing below them
+                c = (1 << r.randint(0, 64)) + r.choice([-1, 0, 0, 1])
+                if r.chance(0.4):
+                    c = -c
             if lo <= c <= hi:
                 return c
         bits = r.randint(1, hi.bit_length())
